@@ -95,6 +95,24 @@ Theorem C14_line_order_independent : forall pf s f lead lead' pairs pairs',
   line_config pf s f (lead ++ render pairs) = line_config pf s f (lead' ++ render pairs').
 Proof. exact line_order_lemma. Qed.
 
+(* the loop of commandlineOverride ranges over a Go MAP (random order): applying the (key, value) pairs of the line to
+   any configuration gives the same result in every order of distinct keys, because the handler of a key writes
+   only the field of that name *)
+Theorem C14_apply_overrides_order_independent : forall pf l l' c, Permutation l l' -> NoDup (map fst l) ->
+  override pf l c = override pf l' c.
+Proof. exact apply_overrides_lemma. Qed.
+
+Theorem C14_key_writes_own_field_only : forall pf k v c c' n,
+  set_field pf k v c = Some c' -> n <> k -> get n c' = get n c.
+Proof. exact key_writes_own_field_lemma. Qed.
+
+Example C14_switch_pair_both_orders :
+  let c := [("AutoSowingHarvest", KBool, VBool true); ("AutoHarvest", KBool, VBool false)] in
+  let want := Some [("AutoSowingHarvest", KBool, VBool false); ("AutoHarvest", KBool, VBool true)] in
+  override (fun _ => None) [("AutoSowingHarvest", "0"); ("AutoHarvest", "1")] c = want /\
+  override (fun _ => None) [("AutoHarvest", "1"); ("AutoSowingHarvest", "0")] c = want.
+Proof. vm_compute. split; reflexivity. Qed.
+
 (* non-vacuity: a three-key schema; line "B=7 zz=1 A=2.5 B=8 C=maybe D"; file gives A and C *)
 Example C14_nonvacuous :
   let pf := fun s => if s =? "2.5" then Some 4612811918334230528%Z else None in
@@ -117,5 +135,7 @@ Print Assumptions C14_fixups_touch_three_keys.
 Print Assumptions C14_fields_any_whitespace.
 Print Assumptions C14_crop_parsing_keeps_arguments.
 Print Assumptions C14_line_order_independent.
+Print Assumptions C14_apply_overrides_order_independent.
+Print Assumptions C14_key_writes_own_field_only.
 Print Assumptions C14_history_independent.
 Print Assumptions C14_history_independent_no_file.
